@@ -107,8 +107,10 @@ impl Writeable for SlateOptFields {
 		if self.amt > 0 {
 			status |= 0x02;
 		}
-		if self.fee.fee() > 0 {
-			// apply fee mask past HF4
+		if !self.fee.is_zero() {
+			// whole fee field word, as in the JSON form (`fee_is_zero`) and as
+			// the reader restores it: a field with a fee_shift but a zero
+			// 40-bit fee part must not be silently dropped
 			status |= 0x04;
 		}
 		if self.feat > 0 {
